@@ -134,7 +134,7 @@ class ScriptedApps:
         if bt:
             import re
 
-            m = re.match(rb"/t(\d+)", scope.get("raw_path") or b"")
+            m = re.match(rb"/+t(\d+)", scope.get("raw_path") or b"")  # (a target may legally begin with empty segments: //t5/...)
             if m and m.group(1).decode() in bt:
                 return bt[m.group(1).decode()]
         bp = apps.get("by_path")
